@@ -111,8 +111,8 @@ def run_probe(lifted, scratch):
         got = {k: m.peek_sym(k, 1) for k in sim.get("expect", {})}
         got.update({k: m.peek_sym(k, 2) for k in sim.get("expect16", {})})
         want = dict(sim.get("expect", {})); want.update(sim.get("expect16", {}))
-        res["simulation"] = {"status": st, "got": got, "want": want}
-        dis = dis or (got != want) or st not in ("end", "rts")
+        res["simulation"] = {"status": st, "got": got, "want": want, "stack_left": len(m.stack)}
+        dis = dis or (got != want) or st not in ("end", "rts") or (bool(sim.get("stack_empty")) and len(m.stack) != 0)
     elif sim and "ERR:" in p.stdout and not exp.get("is_error"):
         res["simulation"] = {"status": "compile error", "stdout": p.stdout[:300]}
     res["disagrees"] = dis
